@@ -30,6 +30,12 @@ func (a Action) String() string {
 			s[i] = strconv.Itoa(x)
 		}
 		return "p:" + strings.Join(s, ",")
+	case "U":
+		s := make([]string, len(a.IDs))
+		for i, x := range a.IDs {
+			s[i] = strconv.Itoa(x)
+		}
+		return "U:" + strings.Join(s, ",")
 	case "ps":
 		s := make([]string, len(a.IDs))
 		for i, x := range a.IDs {
@@ -248,6 +254,12 @@ func (e *Env) apply(a Action) {
 		}
 		w.mu.Unlock()
 		e.Affected(a.C, p, 0)
+	case "U": // the client learns the access hashes of these users (from some other request)
+		w.mu.Lock()
+		for _, u := range a.IDs {
+			w.KnownUsers[userID(u)] = true
+		}
+		w.mu.Unlock()
 	case "K": // the client learns the channel's access hash (from some other request)
 		w.mu.Lock()
 		w.Known[a.C] = true
